@@ -49,6 +49,7 @@ type attFile struct {
 	Type    byte     `json:"file_type"`
 	Chunks  [][2]int `json:"chunks_in_send_order"` // offset, length (before the first 0x1212)
 	Resend  [][2]int `json:"resent_after_first_1212,omitempty"`
+	PostDup bool     `json:"duplicate_chunk_after_completion,omitempty"` // default order only: a duplicate chunk and another 0x1212 after the file was confirmed complete
 }
 
 type attPlan struct {
@@ -234,6 +235,12 @@ func attBuild(p *attPlan) *attBuilt {
 			}
 			c1212(i)
 			resend(i)
+			if f.PostDup && len(f.Chunks) > 0 {
+				// after the file was confirmed complete: one of its chunks arrives once more (a late retransmission), then the
+				// terminal asks again — the file is still complete and still has its content
+				chunk(i, f.Chunks[(i+len(f.Chunks)/2)%len(f.Chunks)])
+				c1212(i)
+			}
 		}
 	}
 	// sentinel: a last control frame (0x1211 for a name that was not announced). The server answers control frames in
@@ -562,6 +569,7 @@ func attGenPlan(g gen.G, idx int, gaps bool) *attPlan {
 			chunks = append(chunks[:k+1], append([][2]int{chunks[k]}, chunks[k+1:]...)...)
 		}
 		f.Chunks = chunks
+		f.PostDup = g.Chance(1, 4)
 		p.Files = append(p.Files, f)
 	}
 	return p
